@@ -161,6 +161,11 @@ def run(ctx):
             pols = list(SR.POLICIES)
             (k0, v0), log0 = SR.generate(s, SR.make_policy("lo", ctx.rnd))
             pols += one_policies(len(log0), ctx.n(6, 40))
+        for pol in ("lo", "hi", "rnd"):
+            # the PUBLIC path: d42.fake(schema) with the module-level generator as the package wires it
+            (kp, vp), logp = SR.generate_public(s, SR.make_policy(pol, ctx.rnd))
+            ctx.count("public_fake_cases")
+            oracle_case(ctx, s, w, pol + " via d42.fake", kp, vp, logp)
         for pol in pols:
             c = gencorr.GenCase(s, pol)
             gencorr.run_real(c, ctx.rnd)
